@@ -42,7 +42,8 @@ theorem C07_cas_answer_checked_is_code :
 theorem C07_read_consistent_is_code : Gen.C07.readRequiresConsistent = true := by decide
 
 /-- Whether the code hands out 0 after 2^32−1 (EVALUATED on the linked code by `vh gen`) is what
-    the model's `guard` switch says. Today: it wraps. -/
+    the model's `guard` switch says. Today: it refuses (fix commit in /repo); a regression to the
+    wrapping increment makes this theorem false. -/
 theorem C07_wrap_is_code :
     Gen.C07.wrapEvaluated = true ∧ codeProto.guard = !Gen.C07.wrapsAtMax := by decide
 
@@ -216,8 +217,18 @@ theorem C07_monotone_guarded (p : Proto) (hcas : p.useCas = true) (hchk : p.chec
   exact C07_monotone p hcas hchk sched st hwf hfm
     (guard_noWrap hcas hchk hg sched _ (inv_init p st hwf) hfm) a b na ta ea nb tb eb qa qb ha hb hab
 
-/-- The finding, on the model of the code as it stands (`codeProto = wrappingProto`,
-    `C07_wrap_is_code`): counter at 2^32−2, two calls one after
+/-- **The property in full for the code as it stands** (`codeProto = guardedProto`, tied by
+    `C07_wrap_is_code`, `C07_write_is_cas_is_code`, `C07_cas_checked_is_code`): for EVERY schedule,
+    under `ForeignMonotone` alone, the numbers handed out are pairwise distinct … -/
+theorem C07_unique_code : C07_unique_full codeProto :=
+  C07_unique_guarded codeProto rfl rfl rfl
+
+/-- … and monotone in real-time order. -/
+theorem C07_monotone_code : C07_monotone_full codeProto :=
+  C07_monotone_guarded codeProto rfl rfl rfl
+
+/-- The former finding `uint32_wrap` (fixed in /repo), on the model of the code as it was
+    (`wrappingProto`): counter at 2^32−2, two calls one after
     the other; the first gets 4294967295, the second gets 0. -/
 theorem C07_finding_uint32_wrap : ¬ C07_monotone_full wrappingProto := by
   intro h
